@@ -202,6 +202,23 @@ def runner(cfg, field, constraint_init=False):
     return _RUNNERS[key][0]
 
 
+_RELEASES = [0]
+
+
+def release():
+    """forget the jitted entry points of finished configurations (every compiled executable keeps memory mappings;
+    a thorough run would otherwise exhaust vm.max_map_count)"""
+    import gc
+
+    import jax
+
+    _RUNNERS.clear()
+    _RELEASES[0] += 1
+    if _RELEASES[0] % 6 == 0:
+        jax.clear_caches()
+        gc.collect()
+
+
 class Replica:
     """solve_adaptive_save_at with Python loops around the jitted public pieces of RejectionLoop."""
 
